@@ -961,6 +961,7 @@ class ModelFeatures:
             and self.direct_effect == other.direct_effect
             and self.effect_comp == other.effect_comp
             and self.indirect_effect == other.indirect_effect
+            and self.metabolite == other.metabolite
         )
 
     def _eq_transits(self, other):
